@@ -445,6 +445,21 @@ impl Prop for C14 {
           return Err("a source whose raw leaves were built through another constructor spelling answers an observer differently".into());
         }
       }
+      // the same constructor calls made on another, freshly started thread (where a value was built is not part of the
+      // value): equal in both directions, same hash, same answers
+      if (size_cold_x + case.hx.len()) % 4 == 0 {
+        let spec = xs.clone();
+        let there = std::thread::spawn(move || build(&spec)).join().map_err(|_| "building on another thread panicked".to_string())?;
+        if *there != *fresh || *fresh != *there || *x != *there {
+          return Err("a source built by the same constructor calls on another thread compares unequal".into());
+        }
+        if hash_of(&*there) != hx0 {
+          return Err("a source built by the same constructor calls on another thread hashes differently".into());
+        }
+        if observe_all(&*there, exact) != ox {
+          return Err("a source built by the same constructor calls on another thread answers an observer differently".into());
+        }
+      }
       // clone
       let cl = x.clone();
       if *cl != *x || hash_of(&*cl) != hx0 {
